@@ -126,9 +126,12 @@ func (c *Comparer) positions(v reflect.Value, n *Node, path string) {
 	raw := c.L.Raw
 	c.PosNodes++
 	want := raw[n.Start:n.End]
-	got := v.FieldByName("Tokens").Interface().([]lexer.Token)
-	if !toksEq(got, want) {
-		c.add(path, "tokens", "Tokens = %s, want the raw run %s", fmtToks(got), fmtToks(want))
+	hasTokens, hasPos, hasEnd := v.FieldByName("Tokens").IsValid(), v.FieldByName("Pos").IsValid(), v.FieldByName("EndPos").IsValid()
+	if hasTokens {
+		got := v.FieldByName("Tokens").Interface().([]lexer.Token)
+		if !toksEq(got, want) {
+			c.add(path, "tokens", "Tokens = %s, want the raw run %s", fmtToks(got), fmtToks(want))
+		}
 	}
 	if n.End > n.Start && !c.NamesElided {
 		first := n.Start
@@ -144,19 +147,23 @@ func (c *Comparer) positions(v reflect.Value, n *Node, path string) {
 		if len(n.Events) >= 0 {
 			firstConsumed = c.firstConsumed(n)
 		}
-		if firstConsumed >= 0 && !c.L.Toks[firstConsumed].Elided && first < n.End {
+		if hasPos && firstConsumed >= 0 && !c.L.Toks[firstConsumed].Elided && first < n.End {
 			pos := asPosition(v.FieldByName("Pos"))
 			if pos != raw[first].Pos {
 				c.add(path, "pos", "Pos = %v, want %v (first non-elided token of the node)", pos, raw[first].Pos)
 			}
 		}
-		end := asPosition(v.FieldByName("EndPos"))
-		if end != raw[n.End].Pos {
-			c.add(path, "endpos", "EndPos = %v, want %v (position right after the last consumed token)", end, raw[n.End].Pos)
-		}
-		pos := asPosition(v.FieldByName("Pos"))
-		if firstConsumed >= 0 && !c.L.Toks[firstConsumed].Elided && (pos.Offset > end.Offset) {
-			c.add(path, "pos", "Pos %v lies after EndPos %v", pos, end)
+		if hasEnd {
+			end := asPosition(v.FieldByName("EndPos"))
+			if end != raw[n.End].Pos {
+				c.add(path, "endpos", "EndPos = %v, want %v (position right after the last consumed token)", end, raw[n.End].Pos)
+			}
+			if hasPos {
+				pos := asPosition(v.FieldByName("Pos"))
+				if firstConsumed >= 0 && !c.L.Toks[firstConsumed].Elided && (pos.Offset > end.Offset) {
+					c.add(path, "pos", "Pos %v lies after EndPos %v", pos, end)
+				}
+			}
 		}
 	}
 }
